@@ -25,7 +25,9 @@
 EXTENDS Integers, Sequences, FiniteSets, TLC
 
 CONSTANTS Cases,      \* observation-preparation cases  [kind, subs, lead, salt, norm]
-          MACases     \* multi-agent routing cases      [kind = "homo" | "critic", ...]
+          MACases,    \* multi-agent routing cases      [kind = "homo" | "critic", ...]
+          Variant     \* "ok"; negative controls: "squeeze1" (a batch-of-one dimension is squeezed away),
+                      \* "normhigh" (scaling by high instead of high-low), "envmajor" (groups taken apart env-major)
 
 VARIABLES cs,         \* the case
           x,          \* input contents
@@ -58,7 +60,7 @@ NRows(lead) == Prod(lead)                           \* <<>> -> 1, <<B>> -> B, <<
 
 IsImage(sp)      == sp.k = "box" /\ Len(sp.shape) = 3
 Normalised(sp, norm) == IsImage(sp) /\ norm /\ ~(sp.lo = 0 /\ sp.hi = 1)
-Den(sp, norm)    == IF Normalised(sp, norm) THEN sp.hi - sp.lo ELSE 1
+Den(sp, norm)    == IF Normalised(sp, norm) THEN (IF Variant = "normhigh" THEN sp.hi ELSE sp.hi - sp.lo) ELSE 1
 
 (* the content function of the grid: flat index -> small integer inside the space *)
 InVal(sp, i, salt) ==
@@ -94,7 +96,8 @@ EncodeLeaf(sp, lead, xs, norm) ==
                [] sp.k = "disc" -> EncDisc(xs, sp.nvec[1])
                [] sp.k = "md"   -> EncMD(xs, sp.nvec)
                [] sp.k = "mb"   -> xs]
-BatchLeaf(sp, lead, enc) == [enc EXCEPT !.shape = <<NRows(lead)>> \o NetShape(sp)]
+BatchLeaf(sp, lead, enc) == [enc EXCEPT !.shape = IF Variant = "squeeze1" /\ NRows(lead) = 1 THEN NetShape(sp)
+                                                  ELSE <<NRows(lead)>> \o NetShape(sp)]
 PrepLeaf(sp, lead, xs, norm) == BatchLeaf(sp, lead, EncodeLeaf(sp, lead, xs, norm))
 (* Prep(space, x): member-wise *)
 Prep(c, xs) == [m \in 1..Len(c.subs) |-> PrepLeaf(c.subs[m], c.lead, xs[m], c.norm)]
@@ -117,7 +120,11 @@ MAVal(a, i)    == a * 100 + i                       \* identified data: value na
 MAInput(c)     == [a \in Agents(c) |-> [i \in 1..(c.E * c.d) |-> MAVal(a, i)]]
 AssembleG(c, xs, g) == LET ms == Members(c, g) IN Flat([i \in 1..Len(ms) |-> xs[ms[i]]])
 Assemble(c, xs)     == [g \in Groups(c) |-> AssembleG(c, xs, g)]
-Disassemble(c, h)   == [a \in Agents(c) |-> Row(h[c.grp[a]], Pos(c, a), c.E * c.d)]
+Disassemble(c, h)   ==
+  IF Variant = "envmajor"
+    THEN [a \in Agents(c) |-> LET m == Len(Members(c, c.grp[a])) IN
+            [i \in 1..(c.E * c.d) |-> h[c.grp[a]][((((i - 1) \div c.d) * m) + Pos(c, a) - 1) * c.d + ((i - 1) % c.d) + 1]]]
+    ELSE [a \in Agents(c) |-> Row(h[c.grp[a]], Pos(c, a), c.E * c.d)]
 
 (* "critic": agents 1..A, common batch B; per-agent prepared observation   *)
 (*   vector kind: (B, dims[a])        -> (B, Sum(dims))    concatenated    *)
